@@ -388,6 +388,15 @@ class Unit:
     def __rmul__(self, u):
         return self.__mul__(u)
 
+    def _registry_with(self, u):
+        # a product lives in the registry of its left factor - unless that
+        # factor is the bare dimensionless unit (what stands in for unit-less
+        # operands): it names no symbol, and the other factor's symbols may
+        # only be known to the other factor's registry
+        if self.expr is sympy_one and u.registry is not None:
+            return u.registry
+        return self.registry
+
     def __mul__(self, u):
         """Multiply Unit with u (Unit object)."""
         if not getattr(u, "is_Unit", False):
@@ -431,7 +440,7 @@ class Unit:
             base_value=(self.base_value * u.base_value),
             base_offset=base_offset,
             dimensions=(self.dimensions * u.dimensions),
-            registry=self.registry,
+            registry=self._registry_with(u),
         )
 
     def __truediv__(self, u):
@@ -465,7 +474,7 @@ class Unit:
             base_value=(self.base_value / u.base_value),
             base_offset=base_offset,
             dimensions=(self.dimensions / u.dimensions),
-            registry=self.registry,
+            registry=self._registry_with(u),
         )
 
     def __rtruediv__(self, u):
